@@ -32,6 +32,38 @@ def self_param_of(body, adt):
     return None
 
 
+def self_aliases(fd, self_param):
+    """locals that are plain whole copies of the self parameter (after inlining a helper its `self` is such a copy)"""
+    cache = getattr(fd, "_self_aliases", None)
+    if cache is None:
+        cache = {}
+        fd._self_aliases = cache
+    if self_param in cache:
+        return cache[self_param]
+    al = {self_param}
+    changed = True
+    while changed:
+        changed = False
+        for l, ds in fd.defs.items():
+            if not isinstance(l, int) or l in al or l < 0:
+                continue
+            rs = [d for d in ds if d.kind != "param"]
+            if len(rs) != 1 or rs[0].kind != "assign" or rs[0].instr is None or not rs[0].instr.place.is_local:
+                continue
+            i_ = rs[0].instr
+            if i_.rv_kind() == "use" and i_.ops and i_.ops[0].place is not None and i_.ops[0].place.is_local \
+                    and i_.ops[0].place.local in al:
+                al.add(l)
+                changed = True
+            elif i_.rv_kind() == "ref":          # a reborrow  &*self
+                rp = i_.ref_place()
+                if rp is not None and rp.local in al and len(rp.proj) == 1 and rp.first_deref():
+                    al.add(l)
+                    changed = True
+    cache[self_param] = al
+    return al
+
+
 def _single_real_def(fd, l):
     ds = [d for d in fd.defs.get(l, ()) if d.kind != "param"]
     return ds
@@ -44,6 +76,9 @@ def ref_origin(fd, l, self_param, depth=0):
     ds = _single_real_def(fd, l)
     if l == self_param and not ds:
         return ()
+    al = self_aliases(fd, self_param)
+    if l in al:
+        return ()
     if len(ds) != 1:
         return None
     d = ds[0]
@@ -55,7 +90,7 @@ def ref_origin(fd, l, self_param, depth=0):
     rk = ins.rv_kind()
     if rk == "ref":
         p = ins.ref_place()
-        if p.local == self_param and p.first_deref():
+        if p.local in al and p.first_deref():
             return p.field_path()
         if p.first_deref():
             base = ref_origin(fd, p.local, self_param, depth + 1)
@@ -81,7 +116,7 @@ def origin_of_def(fd, d, self_param):
         o = ins.ops[0]
         if o.place is not None:
             p = o.place
-            if p.local == self_param and p.first_deref():
+            if p.local in self_aliases(fd, self_param) and p.first_deref():
                 return p.field_path()
     return None
 
@@ -137,7 +172,7 @@ def classify_operand(fd, op, self_param):
     p = op.place
     if p.is_local:
         return classify_local(fd, p.local, self_param)
-    if self_param is not None and p.local == self_param and p.first_deref():
+    if self_param is not None and p.local in self_aliases(fd, self_param) and p.first_deref():
         return Cls("same", p.field_path())
     return Cls("fresh")
 
